@@ -129,13 +129,22 @@ def check(prop, tier, replay=None):
             p = pairs[v['idx'] - 1]
             violations.append(dict(sig=dict(f='per-replica-' + v['prop'] + '-' + str(v['sig'].get('f'))), replay=dict(property=prop, pair=p, violation=v['sig']),
                                    text='%s: %s %s' % (p['id'], v['prop'], json.dumps(v['sig'], sort_keys=True))))
+        sysnote = None
+        if not replay:
+            # the closed loop with two replicas, as separate processes: each replica converges on its own, also while the
+            # other one does not answer at all
+            from . import system as SY
+            sviol, sysnote = SY.evaluate(scratch, sd, tier, C.seed(), nrep=2)
+            for v in sviol:
+                v['replay']['property'] = prop
+                violations.append(v)
         cov = dict(states=res['distinct'], transitions=res['generated'], traces_validated_against_impl=checked - sum(1 for v in violations if v['sig']['f'] == 'depends-on-the-other-replica'),
                    samples=[dict(case={k: cases[0][k] for k in ('opts', 'active', 'explore', 'kindA', 'order', 'two')}, replica_A=cases[0]['A'], replica_B=cases[0]['B'])],
                    evaluations=checked, distinct_nontrivial=sum(1 for c in cases if c['two'] or c['kindA'] != 'normal'),
                    rule='one evaluation = what one replica received in one cycle of the real Coordinator run with TWO replicas (either order; the other replica normal, failing to list its shards, entirely '
                         'unready, or with a failing scale request; same options, discovery and explorer objects), in the first and - 60%% of the cases - in a second cycle of the same coordinator; it must be an '
                         'outcome the replica gets ALONE (TLC-enumerated outcome set of Rebalance.tla for its input, or observed in runs of the real coordinator with that replica only); non-trivial: second cycle or failing neighbour',
-                   exhaustive=False, cases=len(cases),
+                   exhaustive=False, cases=len(cases), system_processes=sysnote,
                    explanation='independence is decided by membership of the jointly observed outcome in the set of outcomes of the replica alone (specification and real code), per replica and cycle; the '
                                'per-replica formulas of RebalanceProps are evaluated by TLC on the same observations')
         return C.conclude(prop, tier, 'model_checking', cov, t0, violations,
